@@ -322,6 +322,37 @@ class CustomPlan:
         }
 
 
+class PermutedPlan:
+    """A user scheduler that calls a built-in scheduler and emits its bins in another order (custom schedulers need
+    not be ascending in frequency).  Top-level class: picklable."""
+
+    def __init__(self, base, perm_seed):
+        self.base = base
+        self.perm_seed = perm_seed
+        self.__name__ = "permuted_" + base
+
+    def __call__(self, **kw):
+        import random as _random
+        from speckit import schedulers as S
+
+        fn = {"lpsd": S.lpsd_plan, "ltf": S.ltf_plan, "vectorized_ltf": S.vectorized_ltf_plan, "new_ltf": S.new_ltf_plan}[self.base]
+        if self.base != "new_ltf":
+            kw.pop("num_patch_pts", None)
+        p = fn(**kw)
+        nf = len(p["f"])
+        perm = list(range(nf))
+        _random.Random(self.perm_seed).shuffle(perm)
+        out = dict(p)
+        for k, v in p.items():
+            if k == "D":
+                out[k] = [p["D"][i] for i in perm]
+            elif isinstance(v, np.ndarray) and v.shape[:1] == (nf,):
+                out[k] = v[perm]
+            elif isinstance(v, list) and len(v) == nf:
+                out[k] = [v[i] for i in perm]
+        return out
+
+
 def custom_scheduler(bins, fs_, b_offset=0.0):
     return CustomPlan(bins, b_offset)
 
@@ -336,7 +367,9 @@ def analyzer_kwargs(cfg, win_obj=None):
     )
     if cfg.get("band") is not None:
         kw["band"] = (cfg["band"][0], cfg["band"][1])
-    if cfg["scheduler"] == "custom":
+    if cfg.get("scheduler_perm") is not None and cfg["scheduler"] != "custom":
+        kw["scheduler"] = PermutedPlan(cfg["scheduler"], cfg["scheduler_perm"])
+    elif cfg["scheduler"] == "custom":
         kw["scheduler"] = custom_scheduler(cfg["custom_plan"], cfg["fs"], cfg.get("custom_b_offset", 0.0))
     else:
         kw["scheduler"] = cfg["scheduler"]
